@@ -103,6 +103,13 @@ WHITELIST = [
     ("safe_map_values", ["arr", "arr", "barr", "opt_int"]),
     ("ordered_inner_map_left_unique", ["arr", "arr", "arr", "arr"]),
     ("ordered_inner_map", ["arr", "arr", "arr", "arr"]),
+    # KT4C
+    ("generate_ordered_map_to_left_right_unique_partial_old", ["int", "arr", "arr", "arr", "int"]),
+    ("ordered_map_valid_partial_old", ["int", "arr", "arr", "arr", "int"]),
+    ("ordered_left_map_result_size", ["arr", "arr"]),
+    ("ordered_outer_map_result_size_both_unique", ["arr", "arr"]),
+    ("ordered_inner_map_left_unique_partial", ["int", "int", "arr", "arr", "arr", "arr"]),
+    ("ordered_get_last_as_filter", ["arr"]),
 ]
 
 LEAN_T = {"int": "Int", "bool": "Bool", "arr": "List Int", "barr": "List Bool", "opt_arr": "Option (List Int)",
@@ -930,13 +937,21 @@ class Kernel:
         else:
             # the function falls off its end (returns None): its result is what it stored into its array parameters
             if any(isinstance(n, ast.Return) for b in body for n in ordered_nodes(b)):
-                raise Unsupported("a function that returns a value on some paths only")
-            if not self.mutated:
+                # the last statement is `while True:` without a `break` of its own: the loop is left by `return` only (or by an
+                # error), the end of the function is unreachable and is rendered as an error branch that no run takes
+                last = body[-1] if body else None
+                if not (isinstance(last, ast.While) and isinstance(last.test, ast.Constant) and last.test.value is True
+                        and not self.loops[id(last)][1]):
+                    raise Unsupported("a function that returns a value on some paths only")
+                ret = None
+            elif not self.mutated:
                 raise Unsupported("the function returns nothing and stores into none of its parameters")
-            ret = ast.Return(value=ast.Tuple(elts=[], ctx=ast.Load()))
+            else:
+                ret = ast.Return(value=ast.Tuple(elts=[], ctx=ast.Load()))
         defined = {f"p{k}" for k in range(len(self.ptypes))}
         self.ret_types = None
-        main, d = self.block(body, defined, None, top=True, final=lambda d: self.ret_final(ret, d))
+        main, d = self.block(body, defined, None, top=True, final=lambda d: self.ret_final(ret, d) if ret is not None else
+                             f".error (.other {lean_str('unreachable: end of a function that ends in `while True`')})")
         rtype = LEAN_T[self.ret_types[0]] if len(self.ret_types) == 1 else \
             "(" + " × ".join(LEAN_T[t] for t in self.ret_types) + ")"
         missing = [v for v in self.locals if v not in self.env]
